@@ -289,6 +289,25 @@ def predict_block(prev: BlockSnap, post: BlockSnap, g_raw: torch.Tensor, w_raw: 
 
     bc2, dbc2 = bias_corr(b2, t, hp.get("bias", True))
 
+    # ---- SOAP second-moment accumulator: v <- beta2 v + (1-beta2) (Q^T-rotated gradient)^2 every step, in the basis stored *after* this step's
+    # refresh; in the original coordinates while no basis exists; ignored dimensions are never rotated
+    if soap:
+        vp_, v_post_ = prev.f("eigval"), post.f("eigval")
+        if vp_ is None or v_post_ is None:
+            comps.append(Comp("eigval.missing", float("inf"), 1.0))
+            return comps
+        Qs = post.f("eigvec")
+        rot = bool(Qs) and bool(Qs[0].any())
+        g_rot = mode_apply(g, Qs, sel) if rot else g
+        qn_ = math.prod(max(1.0, spec_norm(q)) for q in Qs) if rot else 1.0
+        ns_ = sum(q.shape[0] for q in Qs) if rot else 0
+        e_rot = uniform_err(g_rot, qn_ * (fro(e_g) + ns_ * ep * fro(g))) if rot else e_g
+        v_hat = (b2 * vp_ if b2 != 1.0 else vp_) + coef * g_rot * g_rot
+        if _amax(v_hat) > 1e-3 * float(torch.finfo(pd).max) or not math.isfinite(_amax(v_hat)):
+            return [Comp("overflow_domain", 0.0, 1.0, informative=False, hard=False)]
+        err_v2 = coef * (2 * g_rot.abs() * e_rot + 3 * ep * g_rot * g_rot) + ep * ((b2 * vp_).abs() + coef * g_rot * g_rot + v_hat.abs())
+        comps.append(comp("eigval", post.eigval, v_hat, err_v2))
+
     # ---- grafting accumulator
     gd = e_gd = None
     if graft is not None and graft["type"] != "sgd":
